@@ -37,6 +37,7 @@ SUBMISSIONS = {
     'really-changes-a-library-module': "import math\nimport string\ndef add(a, b):\n    return a + b\nmath.pi = 3\nstring.vowels = 'aeiou'\nprint(add(1, 2), math.pi)\n",
     'prints-library-values': "import math\nimport string\ndef add(a, b):\n    return a + b\nprint(add(1, 2), round(math.pi, 3), hasattr(string, 'vowels'))\n",
     'uses-module-attribute': "import math\ndef add(a, b):\n    return a + b\narea = math.pi + 1\nprint(add(1, 2), area > 4)\n",
+    'lowers-recursion-limit': "import sys\nsys.setrecursionlimit(400)\ndef add(a, b):\n    return a + b\nprint(add(1, 2))\n",
     'good': "def add(a, b):\n    return a + b\n\nprint(add(1, 2))\n",
     'wrong': "def add(a, b):\n    return a - b\n\nprint(add(1, 2))\n",
     'crash': "def add(a, b):\n    return a + b\n\nvalues = [1, 2]\nprint(values[5])\n",
@@ -132,6 +133,7 @@ DESIGNED_PAIRS = [
     # the modules pedal itself patches by name or by object are blocked by the script
     [('block-sys-and-time', 'good'), ('plain-assert', 'good'), ('plain-assert', 'exit')],
     [('block-sys-and-time', 'exit'), ('inputs-and-output', 'reads-input')],
+    [('plain-assert', 'lowers-recursion-limit'), ('static-checks', 'defines-class'), ('plain-assert', 'good')],
 ]
 
 
@@ -355,7 +357,14 @@ def run_history(ctx, lib, refs, names, base_snap):
         if name not in refs:
             continue
         lib_before = library_snapshot()
+        limit_before = sys.getrecursionlimit()
         got = grade(g)
+        if sys.getrecursionlimit() != limit_before:
+            # an interpreter-wide setting the student's program changed is still changed: every later grading in this process
+            # runs under it (pedal's own analyses recurse). Reported where it happens, and put back.
+            ctx.violation('C13|interpreter-setting-left-changed-for-later-gradings|recursion-limit', {'history': names[:pos + 1]},
+                          {'grading': name, 'before': limit_before, 'after': sys.getrecursionlimit()})
+            sys.setrecursionlimit(limit_before)
         want = refs[name]
         ctx.count('positions_compared')
         lib_changed = repair_library(lib_before)
